@@ -95,27 +95,33 @@ a known routine type; a coroutine has its name -/
 def RoutineOk (i : RoutineInfo) (name : Option String) : Prop :=
   i.kind ≠ .invalid ∧ (i.kind = .coroutine → name.isSome)
 
-/-- the `SsbCoroutine` the decompile command registers -/
-def coroEntry (i : RoutineInfo) (name : Option String) : Int × String :=
+/-- the `SsbCoroutine` the decompile command registers for routine number `idx` -/
+def coroEntry (idx : Nat) (i : RoutineInfo) (name : Option String) : Int × String :=
   match i.kind, name with
-  | .coroutine, some nm => (-1, nm)
+  | .coroutine, some nm => ((idx : Int), nm)
   | _, _ => (-1, "n/a")
 
-theorem targetOf_targetJ (k : RoutineKind) (i : RoutineInfo) :
-    targetOf k (targetJ i) = .ok (if i.linkedTo ≠ -1 then ⟨k, i.linkedTo, none⟩
-      else match i.linkedToName with
-        | some n => ⟨k, -1, some n⟩
-        | none => ⟨k, -1, some "None"⟩) := by
-  unfold targetJ
-  by_cases h : i.linkedTo ≠ -1
-  · simp [h, targetOf]
-  · simp only [h, ↓reduceIte]
-    cases i.linkedToName <;> simp [targetOf]
+theorem coroEntry_of_not (idx : Nat) (i : RoutineInfo) (nm : Option String) (hc : i.kind ≠ .coroutine) :
+    coroEntry idx i nm = (-1, "n/a") := by
+  obtain ⟨k, l, n⟩ := i
+  cases k <;> first | rfl | exact absurd rfl hc
 
-theorem readRoutine_routineJ (n : Nat) (i : RoutineInfo) (name : Option String) (ops : List Op)
+theorem coroEntry_fst (idx : Nat) (i : RoutineInfo) (nm : Option String) :
+    (coroEntry idx i nm).1 = (idx : Int) ∨ (coroEntry idx i nm).1 = -1 := by
+  obtain ⟨k, l, n⟩ := i
+  cases k <;> cases nm <;> simp [coroEntry]
+
+theorem targetOf_targetJ (k : RoutineKind) (i : RoutineInfo) :
+    targetOf k (targetJ i) = .ok (match i.linkedToName with
+        | some n => ⟨k, -1, some n⟩
+        | none => ⟨k, i.linkedTo, none⟩) := by
+  unfold targetJ
+  cases i.linkedToName <;> simp [targetOf]
+
+theorem readRoutine_routineJ (n idx : Nat) (i : RoutineInfo) (name : Option String) (ops : List Op)
     (hr : RoutineOk i name) (ho : ∀ o ∈ ops, OpOk o) :
     ∃ j, routineJ i name ops = .ok j ∧
-      readRoutine n j = .ok ⟨normInfo i, coroEntry i name, renumOps n ops⟩ := by
+      readRoutine n idx j = .ok ⟨normInfo i, coroEntry idx i name, renumOps n ops⟩ := by
   obtain ⟨i_kind, i_l, i_n⟩ := i
   obtain ⟨h1, h2⟩ := hr
   cases i_kind with
@@ -134,23 +140,17 @@ theorem readRoutine_routineJ (n : Nat) (i : RoutineInfo) (name : Option String) 
     refine ⟨_, rfl, ?_⟩
     simp [readRoutine, look, Dict.get?, withOps, readOpsJ, opsJ, readOpsFrom_map n ops ho, normInfo, coroEntry]
     rw [targetOf_targetJ]
-    by_cases h : i_l = -1
-    · cases i_n <;> simp [h]
-    · simp [h]
+    cases i_n <;> simp
   | object =>
     refine ⟨_, rfl, ?_⟩
     simp [readRoutine, look, Dict.get?, withOps, readOpsJ, opsJ, readOpsFrom_map n ops ho, normInfo, coroEntry]
     rw [targetOf_targetJ]
-    by_cases h : i_l = -1
-    · cases i_n <;> simp [h]
-    · simp [h]
+    cases i_n <;> simp
   | performer =>
     refine ⟨_, rfl, ?_⟩
     simp [readRoutine, look, Dict.get?, withOps, readOpsJ, opsJ, readOpsFrom_map n ops ho, normInfo, coroEntry]
     rw [targetOf_targetJ]
-    by_cases h : i_l = -1
-    · cases i_n <;> simp [h]
-    · simp [h]
+    cases i_n <;> simp
 
 /-! ### routine sets -/
 
@@ -160,14 +160,15 @@ def AllOk : List RoutineInfo → List (Option String) → List (List Op) → Pro
   | i :: is, n :: ns, o :: os => RoutineOk i n ∧ (∀ x ∈ o, OpOk x) ∧ AllOk is ns os
   | _, _, _ => False
 
-def readBack (n : Nat) : List RoutineInfo → List (Option String) → List (List Op) → List RRoutine
-  | i :: is, nm :: ns, o :: os => ⟨normInfo i, coroEntry i nm, renumOps n o⟩ :: readBack (n + o.length) is ns os
+def readBack (n idx : Nat) : List RoutineInfo → List (Option String) → List (List Op) → List RRoutine
+  | i :: is, nm :: ns, o :: os =>
+    ⟨normInfo i, coroEntry idx i nm, renumOps n o⟩ :: readBack (n + o.length) (idx + 1) is ns os
   | _, _, _ => []
 
-theorem readRoutines_routinesJ (n : Nat) (is : List RoutineInfo) (ns : List (Option String)) (os : List (List Op))
+theorem readRoutines_routinesJ (n idx : Nat) (is : List RoutineInfo) (ns : List (Option String)) (os : List (List Op))
     (h : AllOk is ns os) :
-    ∃ js, routinesJ is ns os = .ok js ∧ readRoutinesFrom n js = .ok (readBack n is ns os) := by
-  induction is generalizing n ns os with
+    ∃ js, routinesJ is ns os = .ok js ∧ readRoutinesFrom n idx js = .ok (readBack n idx is ns os) := by
+  induction is generalizing n idx ns os with
   | nil =>
     cases ns <;> cases os <;> simp [AllOk] at h
     exact ⟨[], rfl, rfl⟩
@@ -179,15 +180,15 @@ theorem readRoutines_routinesJ (n : Nat) (is : List RoutineInfo) (ns : List (Opt
       | nil => simp [AllOk] at h
       | cons o os =>
         obtain ⟨h1, h2, h3⟩ := h
-        obtain ⟨j, hj1, hj2⟩ := readRoutine_routineJ n i nm o h1 h2
-        obtain ⟨js, hjs1, hjs2⟩ := ih (n + o.length) ns os h3
+        obtain ⟨j, hj1, hj2⟩ := readRoutine_routineJ n idx i nm o h1 h2
+        obtain ⟨js, hjs1, hjs2⟩ := ih (n + o.length) (idx + 1) ns os h3
         refine ⟨j :: js, ?_, ?_⟩
         · simp [routinesJ, hj1, hjs1, consR]
         · simp [readRoutinesFrom, hj2, renumOps_length, hjs2, readBack]
 
-theorem readBack_infos (n : Nat) (is : List RoutineInfo) (ns : List (Option String)) (os : List (List Op))
-    (h : AllOk is ns os) : (readBack n is ns os).map (·.info) = is.map normInfo := by
-  induction is generalizing n ns os with
+theorem readBack_infos (n idx : Nat) (is : List RoutineInfo) (ns : List (Option String)) (os : List (List Op))
+    (h : AllOk is ns os) : (readBack n idx is ns os).map (·.info) = is.map normInfo := by
+  induction is generalizing n idx ns os with
   | nil => cases ns <;> cases os <;> simp [AllOk] at h; rfl
   | cons i is ih =>
     cases ns with
@@ -195,11 +196,11 @@ theorem readBack_infos (n : Nat) (is : List RoutineInfo) (ns : List (Option Stri
     | cons nm ns =>
       cases os with
       | nil => simp [AllOk] at h
-      | cons o os => simp [readBack, ih (n + o.length) ns os h.2.2]
+      | cons o os => simp [readBack, ih (n + o.length) (idx + 1) ns os h.2.2]
 
-theorem readBack_ops (n : Nat) (is : List RoutineInfo) (ns : List (Option String)) (os : List (List Op))
-    (h : AllOk is ns os) : (readBack n is ns os).map (·.ops) = renumRoutines n os := by
-  induction is generalizing n ns os with
+theorem readBack_ops (n idx : Nat) (is : List RoutineInfo) (ns : List (Option String)) (os : List (List Op))
+    (h : AllOk is ns os) : (readBack n idx is ns os).map (·.ops) = renumRoutines n os := by
+  induction is generalizing n idx ns os with
   | nil => cases ns <;> cases os <;> simp [AllOk] at h; rfl
   | cons i is ih =>
     cases ns with
@@ -207,16 +208,50 @@ theorem readBack_ops (n : Nat) (is : List RoutineInfo) (ns : List (Option String
     | cons nm ns =>
       cases os with
       | nil => simp [AllOk] at h
-      | cons o os => simp [readBack, renumRoutines, ih (n + o.length) ns os h.2.2]
+      | cons o os => simp [readBack, renumRoutines, ih (n + o.length) (idx + 1) ns os h.2.2]
 
-theorem readBack_length (n : Nat) (is : List RoutineInfo) (ns : List (Option String)) (os : List (List Op))
-    (h : AllOk is ns os) : (readBack n is ns os).length = is.length := by
-  have := congrArg List.length (readBack_infos n is ns os h)
+theorem readBack_length (n idx : Nat) (is : List RoutineInfo) (ns : List (Option String)) (os : List (List Op))
+    (h : AllOk is ns os) : (readBack n idx is ns os).length = is.length := by
+  have := congrArg List.length (readBack_infos n idx is ns os h)
   simpa using this
 
-theorem readBack_coro_ids (n : Nat) (is : List RoutineInfo) (ns : List (Option String)) (os : List (List Op)) :
-    ∀ r ∈ readBack n is ns os, r.coro.1 = -1 := by
-  induction is generalizing n ns os with
+/-! ### the decompiler's id → name table `{x.id: x.name for x in named_coroutines}` -/
+
+/-- the value of the last item with key `key` -/
+def lastVal {β : Type} : List (Int × β) → Int → Option β
+  | [], _ => none
+  | x :: xs, key =>
+    match lastVal xs key with
+    | some v => some v
+    | none => if x.1 = key then some x.2 else none
+
+theorem get?_foldl_set {β : Type} (items acc : List (Int × β)) (key : Int) :
+    Dict.get? (items.foldl (fun d kv => Dict.set d kv.1 kv.2) acc) key =
+      match lastVal items key with
+      | some v => some v
+      | none => Dict.get? acc key := by
+  induction items generalizing acc with
+  | nil => rfl
+  | cons x xs ih =>
+    simp only [List.foldl_cons, ih, lastVal]
+    cases hl : lastVal xs key with
+    | some v => rfl
+    | none =>
+      simp only
+      by_cases hx : x.1 = key
+      · simp only [hx, ↓reduceIte]; rw [← hx]; exact Dict.get?_set_self acc x.1 x.2
+      · simp only [hx, ↓reduceIte]; exact Dict.get?_set_other acc x.1 key x.2 hx
+
+theorem get?_ofItems {β : Type} (items : List (Int × β)) (key : Int) :
+    Dict.get? (Dict.ofItems items) key = lastVal items key := by
+  unfold Dict.ofItems
+  rw [get?_foldl_set]
+  cases lastVal items key <;> rfl
+
+/-- the ids registered for the routines from number `idx` on are −1 or at least `idx` -/
+theorem readBack_ids (n idx : Nat) (is : List RoutineInfo) (ns : List (Option String)) (os : List (List Op)) :
+    ∀ r ∈ readBack n idx is ns os, r.coro.1 = -1 ∨ (idx : Int) ≤ r.coro.1 := by
+  induction is generalizing n idx ns os with
   | nil => intro r hr; cases ns <;> cases os <;> simp [readBack] at hr
   | cons i is ih =>
     cases ns with
@@ -228,50 +263,102 @@ theorem readBack_coro_ids (n : Nat) (is : List RoutineInfo) (ns : List (Option S
         intro r hr
         simp only [readBack, List.mem_cons] at hr
         rcases hr with rfl | hr
-        · simp only [coroEntry]; split <;> rfl
-        · exact ih (n + o.length) ns os r hr
+        · simp only [coroEntry]
+          split
+          · right; simp
+          · left; rfl
+        · rcases ih (n + o.length) (idx + 1) ns os r hr with h | h
+          · left; exact h
+          · right; omega
 
-/-- a dict built from items none of which has key `k` has no key `k` -/
-theorem get?_foldl_set_none {β : Type} (items acc : List (Int × β)) (k : Int)
-    (h1 : Dict.get? acc k = none) (h2 : ∀ x ∈ items, x.1 ≠ k) :
-    Dict.get? (items.foldl (fun d kv => Dict.set d kv.1 kv.2) acc) k = none := by
-  induction items generalizing acc with
-  | nil => simpa using h1
+theorem lastVal_none {β : Type} (items : List (Int × β)) (key : Int) (h : ∀ x ∈ items, x.1 ≠ key) :
+    lastVal items key = none := by
+  induction items with
+  | nil => rfl
   | cons x xs ih =>
-    simp only [List.foldl_cons]
-    apply ih
-    · rw [Dict.get?_set_other acc x.1 k x.2 (h2 x (by simp))]; exact h1
-    · intro y hy; exact h2 y (by simp [hy])
+    simp only [lastVal, ih (fun y hy => h y (by simp [hy]))]
+    simp [h x (by simp)]
 
-/-- every coroutine is registered under id −1, so no routine id has a name -/
-theorem coroTable_none (rs : List RRoutine) (h : ∀ r ∈ rs, r.coro.1 = -1) :
-    coroTable rs = rs.map fun _ => none := by
+/-- looking up routine number `idx + k` in the table: the name of a COROUTINE routine, nothing otherwise -/
+theorem lastVal_readBack (n idx k : Nat) (is : List RoutineInfo) (ns : List (Option String)) (os : List (List Op))
+    (h : AllOk is ns os) :
+    lastVal ((readBack n idx is ns os).map (·.coro)) ((idx + k : Nat) : Int) = ((corosRead is ns)[k]?).join := by
+  induction is generalizing n idx k ns os with
+  | nil => cases ns <;> cases os <;> simp [AllOk] at h; simp [readBack, lastVal, corosRead]
+  | cons i is ih =>
+    cases ns with
+    | nil => cases os <;> simp [AllOk] at h
+    | cons nm ns =>
+      cases os with
+      | nil => simp [AllOk] at h
+      | cons o os =>
+        obtain ⟨h1, _, h3⟩ := h
+        simp only [readBack, List.map_cons, lastVal, corosRead]
+        cases k with
+        | zero =>
+          have hnone : lastVal ((readBack (n + o.length) (idx + 1) is ns os).map (·.coro)) ((idx + 0 : Nat) : Int) = none := by
+            apply lastVal_none
+            intro x hx
+            simp only [List.mem_map] at hx
+            obtain ⟨r, hr, rfl⟩ := hx
+            rcases readBack_ids (n + o.length) (idx + 1) is ns os r hr with e | e
+            · rw [e]; omega
+            · omega
+          rw [hnone]
+          simp only [List.getElem?_cons_zero, Option.join_some]
+          by_cases hc : i.kind = .coroutine
+          · have := h1.2 hc
+            cases nm with
+            | none => simp at this
+            | some x => simp [coroEntry, hc]
+          · simp [hc, coroEntry_of_not idx i nm hc]
+        | succ k =>
+          have e : ((idx + (k + 1) : Nat) : Int) = ((idx + 1 + k : Nat) : Int) := by omega
+          rw [e, ih (n + o.length) (idx + 1) k ns os h3]
+          simp only [List.getElem?_cons_succ]
+          cases hv : ((corosRead is ns)[k]?).join with
+          | some v => rfl
+          | none =>
+            simp only
+            have : (coroEntry idx i nm).1 ≠ (idx : Int) + 1 + (k : Int) := by
+              rcases coroEntry_fst idx i nm with e | e <;> rw [e] <;> omega
+            have e2 : ((idx + 1 + k : Nat) : Int) = (idx : Int) + 1 + (k : Int) := by omega
+            rw [e2, if_neg this]
+
+theorem corosRead_length (is : List RoutineInfo) (ns : List (Option String)) (os : List (List Op)) (h : AllOk is ns os) :
+    (corosRead is ns).length = is.length := by
+  induction is generalizing ns os with
+  | nil => cases ns <;> cases os <;> simp [AllOk] at h; rfl
+  | cons i is ih =>
+    cases ns with
+    | nil => cases os <;> simp [AllOk] at h
+    | cons nm ns =>
+      cases os with
+      | nil => simp [AllOk] at h
+      | cons o os => simp [corosRead, ih ns os h.2.2]
+
+/-- every coroutine is registered under its routine index: each COROUTINE routine finds its name -/
+theorem coroTable_readBack (n : Nat) (is : List RoutineInfo) (ns : List (Option String)) (os : List (List Op))
+    (h : AllOk is ns os) : coroTable (readBack n 0 is ns os) = corosRead is ns := by
   unfold coroTable
   apply List.ext_getElem
-  · simp
+  · simp [readBack_length n 0 is ns os h, corosRead_length is ns os h]
   · intro k h1 h2
     simp only [List.getElem_map, List.getElem_range]
-    unfold Dict.ofItems
-    apply get?_foldl_set_none
-    · rfl
-    · intro x hx
-      simp only [List.mem_map] at hx
-      obtain ⟨r, hr, rfl⟩ := hx
-      rw [h r hr]
-      simp only [Int.ofNat_eq_natCast]
-      omega
+    rw [get?_ofItems]
+    have := lastVal_readBack n 0 k is ns os h
+    simp only [Nat.zero_add] at this
+    rw [Int.ofNat_eq_natCast, this]
+    simp only [List.length_map, List.length_range] at h1
+    have hk : k < (corosRead is ns).length := h2
+    simp [List.getElem?_eq_getElem hk]
 
 /-- hypotheses of the round trip, on a routine set -/
 def Wf (c : RoutineSet) : Prop := AllOk c.infos c.coros c.ops
 
-theorem toSet_readBack (c : RoutineSet) (h : Wf c) : toSet (readBack 0 c.infos c.coros c.ops) = renum c := by
+theorem toSet_readBack (c : RoutineSet) (h : Wf c) : toSet (readBack 0 0 c.infos c.coros c.ops) = renum c := by
   unfold toSet renum
-  rw [readBack_infos 0 _ _ _ h, readBack_ops 0 _ _ _ h,
-    coroTable_none _ (readBack_coro_ids 0 c.infos c.coros c.ops)]
-  congr 1
-  apply List.ext_getElem
-  · simp [readBack_length 0 _ _ _ h]
-  · intro k h1 h2; simp
+  rw [readBack_infos 0 0 _ _ _ h, readBack_ops 0 0 _ _ _ h, coroTable_readBack 0 _ _ _ h]
 
 /-- documented settings pass `check_settings` -/
 theorem checkSettings_of_shape (s : J) (rest : List (String × J)) (h : settingsShape s = true) :
@@ -303,16 +390,57 @@ theorem checkSettings_of_shape (s : J) (rest : List (String × J)) (h : settings
     · simp at h1
   | _ => simp [settingsShape] at h
 
-/-- **reading back what the compile command writes** (all routine sets): the decompile command gets the same
-routines, ops and parameters, with the offsets replaced by the 1-based positions — whatever the offsets were. -/
-theorem readJson_buildJson (s : J) (c : RoutineSet) (hs : settingsShape s = true) (h : Wf c) :
-    ∃ j, buildJson s c = .ok j ∧ readJson j = .ok (renum c) := by
-  obtain ⟨js, h1, h2⟩ := readRoutines_routinesJ 0 c.infos c.coros c.ops h
+/-- reading back a document in which the ops of `c` are printed as they are: same routines, ops and parameters, with the
+offsets replaced by the 1-based positions — whatever the offsets were -/
+theorem readJson_buildJsonRaw (s : J) (c : RoutineSet) (hs : settingsShape s = true) (h : Wf c) :
+    ∃ j, buildJsonRaw s c = .ok j ∧ readJson j = .ok (renum c) := by
+  obtain ⟨js, h1, h2⟩ := readRoutines_routinesJ 0 0 c.infos c.coros c.ops h
   refine ⟨.obj [("settings", s), ("routines", .arr js)], ?_, ?_⟩
-  · simp [buildJson, h1]
+  · simp [buildJsonRaw, h1]
   · unfold readJson readRaw
     simp only [checkSettings_of_shape s _ hs]
     simp [look, Dict.get?, h2, toSet_readBack c h]
+
+/-- the position table does not touch what `Wf` speaks about -/
+theorem remap_wf (c : RoutineSet) (h : Wf c) : Wf (remap c) := by
+  unfold Wf at *
+  have key : ∀ (offs : List Int) (is : List RoutineInfo) (ns : List (Option String)) (os : List (List Op)),
+      AllOk is ns os → AllOk is ns (os.map fun r => r.map (remapOp offs)) := by
+    intro offs is
+    induction is with
+    | nil => intro ns os h; cases ns <;> cases os <;> simp [AllOk] at h ⊢
+    | cons i is ih =>
+      intro ns os h
+      cases ns with
+      | nil => cases os <;> simp [AllOk] at h
+      | cons nm ns =>
+        cases os with
+        | nil => simp [AllOk] at h
+        | cons o os =>
+          obtain ⟨h1, h2, h3⟩ := h
+          refine ⟨h1, ?_, ih ns os h3⟩
+          intro x hx
+          simp only [List.mem_map] at hx
+          obtain ⟨y, hy, rfl⟩ := hx
+          have hy2 := h2 y hy
+          unfold remapOp
+          split
+          · exact hy2
+          · split
+            · split
+              · intro p hp
+                simp only at hp
+                rcases List.mem_or_eq_of_mem_set hp with hp | rfl
+                · exact hy2 p hp
+                · trivial
+              · exact hy2
+            · exact hy2
+  exact key c.offsets c.infos c.coros c.ops h
+
+/-- **reading back what the compile command writes** (all routine sets): the canonical, positional form -/
+theorem readJson_buildJson (s : J) (c : RoutineSet) (hs : settingsShape s = true) (h : Wf c) :
+    ∃ j, buildJson s c = .ok j ∧ readJson j = .ok (canon c) :=
+  readJson_buildJsonRaw s (remap c) hs (remap_wf c h)
 
 /-! ### positions -/
 
